@@ -26,6 +26,9 @@ def main(tier):
     ljobs = [('memory', 'VerifLoad', {'len': n, 'type': 0, 'ram': 0}) for n in short]
     ljobs += [('memory', 'VerifLoad', {'len': n, 'type': t, 'ram': r}) for n in lens for t in supported for r in rams]
     ljobs += [('memory', 'VerifLoad', {'len': 0x8000, 'type': t, 'ram': 0}) for t in others]
+    if q:
+        # 256 banks: uint8(len(rom)) is 0 in the MBC1/MBC2 bank arithmetic (must fail in construction or not at all)
+        ljobs += [('memory', 'VerifLoad', {'len': 0x400000, 'type': t, 'ram': 0}) for t in (0x01, 0x05, 0x11, 0x19)]
     ck.run(ljobs, timeout_ms=300000, allow_marks=('construct',), max_unwind=600, interp_budget_s=600)
     # ---- (b)
     jobs = []
